@@ -28,7 +28,7 @@ func C01(p *ir.Program, r *report.R) {
 	c := C{p, r}
 	voteSetAdmission(c)
 	r.Floor = 60
-	r.Explain = "Decided: the per-validator voting discipline in consensus/state.go — (B1) one prevote / one precommit per round: who may call signAddVote/signVote/PrivValidator.SignVote and with which vote type, at most one sign call per path, the re-entry guard of every enter* function interpreted over all orderings of (height, round, step), each enter* function sets its own step; (B2) a non-nil precommit is dominated by a polka of this round for that block id; (B3) no prevote against the lock, lock writers and unlock guards; (B4) commit guarded by +2/3 precommits, matching part-set header and block hash; (B5) stale timeouts ignored. ADDED after seeded-change testing: Quorum-intersection premises: a block id becomes a vote set's +2/3 majority only when its tally crosses total*2/3+1, once, and HasTwoThirdsAny is the strict two-thirds form (shared with C03). NOT decided: agreement across nodes and schedules (needs exploration of interleavings of several state machines — a different technique family), liveness, gossip."
+	r.Explain = "Decided: the per-validator voting discipline in consensus/state.go — (B1) one prevote / one precommit per round: who may call signAddVote/signVote/PrivValidator.SignVote and with which vote type, at most one sign call per path, the re-entry guard of every enter* function interpreted over all orderings of (height, round, step), each enter* function sets its own step; (B2) a non-nil precommit is dominated by a polka of this round for that block id; (B3) no prevote against the lock, lock writers and unlock guards; (B4) commit guarded by +2/3 precommits, matching part-set header and block hash; (B5) stale timeouts ignored. ADDED after seeded-change testing: Quorum-intersection premises: a block id becomes a vote set's +2/3 majority only when its tally crosses total*2/3+1, once, and HasTwoThirdsAny is the strict two-thirds form (shared with C03). Round 6: the vote-admission rule of VoteSet.addVote (slot validator, address, signature) is checked here too. NOT decided: agreement across nodes and schedules (needs exploration of interleavings of several state machines — a different technique family), liveness, gossip."
 	r.Trusted = []string{"go/types + go/ssa (x/tools v0.29.0)", "VoteSet arithmetic (decided under C03)", "FilePV (decided under C04)"}
 	r.Assume = []string{"facts are branch conditions whose successor dominates the effect; a store to a compared field between guard and effect is not tracked except where stated", "cmn.Panic*/cmn.Exit never return"}
 
